@@ -585,22 +585,26 @@ Proof.
   rewrite H2, IH2. reflexivity.
 Qed.
 
-(* one line of the including cart *)
-Lemma expand_refines body :
-  no_nl body ->
+(* one line of the including cart, as the reader hands it over: with its "\n", or - the last line of a
+   file that does not end in a newline - without *)
+Lemma expand_refines_gen body nl :
+  is_term nl -> no_nl body ->
   match expand content body with
-  | SpOk ls => exists c, expand_m (body ++ [10]) = Ok c /\ Forall terminated c /\ map strip_nl c = ls
-  | SpMissing => exists e, expand_m (body ++ [10]) = Err e
+  | SpOk ls => exists c, expand_m (body ++ nl) = Ok c /\
+                 ((Forall terminated c /\ map strip_nl c = ls) \/ (nl = [] /\ c = [body] /\ ls = [body]))
+  | SpMissing => exists e, expand_m (body ++ nl) = Err e
   | SpUndefined => True
   end.
 Proof.
-  intros Hb. unfold expand. destruct (classify body) as [|name k tab|] eqn:Ec; [| |exact I].
+  intros Hnl Hb. unfold expand. destruct (classify body) as [|name k tab|] eqn:Ec; [| |exact I].
   - (* plain *)
-    exists [body ++ [10]]. split; [apply plain_line_expands; apply classify_plain_agrees; [right; reflexivity|exact Ec]|].
-    split; [constructor; [exists body; split; [reflexivity|exact Hb]|constructor]|].
-    cbn [map]. rewrite (strip_nl_term body Hb). reflexivity.
+    exists [body ++ nl]. split; [apply plain_line_expands; apply classify_plain_agrees; [exact Hnl|exact Ec]|].
+    destruct Hnl as [-> | ->].
+    + right. rewrite app_nil_r. repeat split.
+    + left. split; [constructor; [exists body; split; [reflexivity|exact Hb]|constructor]|].
+      cbn [map]. rewrite (strip_nl_term body Hb). reflexivity.
   - (* include *)
-    destruct (classify_include_agrees body name k tab [10] (or_intror eq_refl) Ec) as (base & Hm & Hname & Hk & Hl & Hk0).
+    destruct (classify_include_agrees body name k tab nl Hnl Ec) as (base & Hm & Hname & Hk & Hl & Hk0).
     unfold expand_line. rewrite Hm. unfold include_lines. rewrite <- Hname.
     specialize (Hview name k Hk Hl). unfold target_lines.
     destruct (content name k) as [txt|].
@@ -611,7 +615,7 @@ Proof.
       rewrite (Hlua eq_refl), (Hk0 eq_refl). cbn [ext_of Z.eqb is_cart_ext].
       change (is_cart_ext ext_lua) with false. cbv iota.
       destruct (map_yielded (file_lines txt) (file_lines_line_like txt)) as [H1 H2].
-      eexists. split; [reflexivity|]. split; [exact H1|]. rewrite H2. apply file_lines_text.
+      eexists. split; [reflexivity|]. left. split; [exact H1|]. rewrite H2. apply file_lines_text.
     + (* cart *)
       destruct (Hcart Hk1) as (chunks & -> & Hll & Hmap).
       assert (Hce : is_cart_ext (ext_of k) = true).
@@ -619,11 +623,24 @@ Proof.
       rewrite Hce. destruct tab as [n|].
       * destruct (tabs_defined (text_lines txt)) eqn:Et; [|exact I].
         destruct (map_yielded _ (lines_for_tab_line_like chunks (Some n) Hll)) as [H1 H2].
-        eexists. split; [reflexivity|]. split; [exact H1|]. rewrite H2, <- Hmap.
+        eexists. split; [reflexivity|]. left. split; [exact H1|]. rewrite H2, <- Hmap.
         apply lines_for_tab_tabs; [exact (classify_tab_nonneg body name k n Ec)|rewrite Hmap; exact Et].
       * destruct (lines_for_tab_spec chunks) as (Hall & _). rewrite Hall.
         destruct (map_yielded chunks Hll) as [H1 H2].
-        eexists. split; [reflexivity|]. split; [exact H1|]. rewrite H2. exact Hmap.
+        eexists. split; [reflexivity|]. left. split; [exact H1|]. rewrite H2. exact Hmap.
+Qed.
+
+Lemma expand_refines body :
+  no_nl body ->
+  match expand content body with
+  | SpOk ls => exists c, expand_m (body ++ [10]) = Ok c /\ Forall terminated c /\ map strip_nl c = ls
+  | SpMissing => exists e, expand_m (body ++ [10]) = Err e
+  | SpUndefined => True
+  end.
+Proof.
+  intros Hb. pose proof (expand_refines_gen body [10] (or_intror eq_refl) Hb) as H.
+  destruct (expand content body) as [ls| |]; [|exact H|exact I].
+  destruct H as (c & Hc & [H|(E & _)]); [exists c; split; [exact Hc|exact H]|discriminate].
 Qed.
 
 (* the whole cart: host chunks are the terminated lines the .p8 reader produces *)
@@ -675,6 +692,67 @@ Proof.
     destruct (ref_splice content bodies) as [ls| |]; [| |exact I].
     + destruct H as (out & -> & Ho1 & Ho2). exists (concat out). split; [reflexivity|].
       pose proof (text_lines_terminated out [] Ho1) as Ht. rewrite !app_nil_r in Ht. rewrite Ht. exact Ho2.
+    + destruct H as (e & ->). reflexivity.
+Qed.
+(* the same when the cart's last line has no final newline (a .p8 file that ends inside its code section) *)
+Lemma text_lines_last body : no_nl body -> body <> [] -> text_lines body = [body].
+Proof.
+  induction body as [|c b IH]; intros H Hne; [congruence|].
+  unfold no_nl in H. cbn [forallb] in H. apply andb_true_iff in H as [Hc Hb]. apply negb_true_iff in Hc.
+  cbn [text_lines]. rewrite Hc. destruct b as [|d b']; [reflexivity|].
+  rewrite (IH Hb) by discriminate. reflexivity.
+Qed.
+
+Lemma splice_refines_last init last :
+  Forall no_nl init -> no_nl last -> last <> [] ->
+  let hs := map (fun b => b ++ [10]) init ++ [last] in
+  match ref_splice content (init ++ [last]) with
+  | SpOk ls => exists out, process_includes 1 resolve target hs = Ok out /\ text_lines (concat out) = ls
+  | SpMissing => exists e, process_includes 1 resolve target hs = Err e
+  | SpUndefined => True
+  end.
+Proof.
+  intros Hi Hl Hne. cbv zeta. induction Hi as [|b r Hb1 _ IH].
+  - cbn [app map ref_splice]. rewrite process_includes_collect. cbn [map collect].
+    pose proof (expand_refines_gen last [] (or_introl eq_refl) Hl) as He. rewrite app_nil_r in He.
+    destruct (expand content last) as [ls| |]; cbn [sp_seq]; [| |exact I].
+    + rewrite (app_nil_r ls). destruct He as (c & -> & [(Ht & Hm)|(_ & -> & ->)]); cbn [bind]; rewrite app_nil_r.
+      * exists c. split; [reflexivity|]. pose proof (text_lines_terminated c [] Ht) as H. rewrite !app_nil_r in H.
+        rewrite H. exact Hm.
+      * exists [last]. split; [reflexivity|]. cbn [concat]. rewrite app_nil_r. apply text_lines_last; assumption.
+    + destruct He as (e & ->). exists e. reflexivity.
+  - cbn [app ref_splice map]. rewrite process_includes_collect. cbn [map collect]. rewrite <- process_includes_collect.
+    pose proof (expand_refines b Hb1) as He.
+    destruct (sp_seq (expand content b) (ref_splice content (r ++ [last]))) as [ls| |] eqn:Es; [| |exact I].
+    + apply sp_seq_ok in Es as (x & y & Ex & Ey & ->). rewrite Ex in He. rewrite Ey in IH.
+      destruct He as (c & -> & Hc1 & Hc2). destruct IH as (out & -> & Ho). cbn [bind].
+      exists (c ++ out). split; [reflexivity|]. rewrite concat_app, (text_lines_terminated c _ Hc1), Hc2, Ho. reflexivity.
+    + apply sp_seq_missing in Es as [Ex|(x & Ex & Ey)].
+      * rewrite Ex in He. destruct He as (e & ->). exists e. reflexivity.
+      * rewrite Ex in He. rewrite Ey in IH. destruct He as (c & -> & _). destruct IH as (e & ->).
+        exists e. reflexivity.
+Qed.
+
+Lemma model_meets_spec_last init last :
+  Forall no_nl init -> no_nl last -> last <> [] ->
+  let hs := map (fun b => b ++ [10]) init ++ [last] in
+  let impl := model_outcome (process_includes 1 resolve target hs) in
+  text_lines (concat hs) = init ++ [last] /\
+  match ref_splice content (init ++ [last]) with
+  | SpOk ls => exists t, impl = Some t /\ text_lines t = ls
+  | SpMissing => impl = None
+  | SpUndefined => True
+  end.
+Proof.
+  intros Hi Hl Hne. cbv zeta. split.
+  - assert (Ht : Forall terminated (map (fun b => b ++ [10]) init)).
+    { apply Forall_forall. intros l Hin. apply in_map_iff in Hin as (b & <- & Hb). exists b. split; [reflexivity|].
+      rewrite Forall_forall in Hi. apply Hi. exact Hb. }
+    rewrite concat_app. cbn [concat]. rewrite app_nil_r, (text_lines_terminated _ last Ht), map_map, (text_lines_last last Hl Hne).
+    f_equal. clear Ht. induction Hi as [|b r Hb1 _ IH]; [reflexivity|]. cbn [map]. rewrite (strip_nl_term b Hb1), IH. reflexivity.
+  - pose proof (splice_refines_last init last Hi Hl Hne) as H. cbv zeta in H.
+    destruct (ref_splice content (init ++ [last])) as [ls| |]; [| |exact I].
+    + destruct H as (out & -> & Ho). exists (concat out). split; [reflexivity|exact Ho].
     + destruct H as (e & ->). reflexivity.
 Qed.
 End Refine.
@@ -824,6 +902,23 @@ Proof.
   intros Hv Hb.
   exact (model_meets_spec (resolve_now cwd home fs filename) (fs_target include_cart_lines_kind fs) content
            (fs_agrees_view_ok _ _ _ _ _ Hv) bodies Hb).
+Qed.
+
+Lemma refines_last_now cwd home fs filename content init last :
+  fs_agrees cwd home fs filename content ->
+  Forall no_nl init -> no_nl last -> last <> [] ->
+  let hs := map (fun b => b ++ [10]) init ++ [last] in
+  let impl := model_outcome (process_includes_now cwd home fs filename hs) in
+  text_lines (concat hs) = init ++ [last] /\
+  match ref_splice content (init ++ [last]) with
+  | SpOk ls => exists t, impl = Some t /\ text_lines t = ls
+  | SpMissing => impl = None
+  | SpUndefined => True
+  end.
+Proof.
+  intros Hv Hi Hl Hne.
+  exact (model_meets_spec_last (resolve_now cwd home fs filename) (fs_target include_cart_lines_kind fs) content
+           (fs_agrees_view_ok _ _ _ _ _ Hv) init last Hi Hl Hne).
 Qed.
 
 Lemma holds_now cwd home fs filename files bodies :
